@@ -12,7 +12,8 @@ var keyRunes = []rune{
 	0xd7ff, 0xe000, 0xfffd, 0xfffe, 0xffff, 0x10000, 0x1f600, 0x10ffff, 0xff41,
 }
 
-var keyChunks = []string{`\n`, `A`, `\ud800`, `\udc00`, `\\`, `\'`, `\"`, `\/`, `\b`, `u0041`, `()`, `..`, `*`, `$`, `@`, `?(`, `[0]`, `'a'`, `a.b`, `true`, `null`, `length`}
+var keyChunks = []string{`\n`, `A`, `\ud800`, `\udc00`, `\\`, `\'`, `\"`, `\/`, `\b`, `u0041`, `()`, `..`, `*`, `$`, `@`, `?(`, `[0]`, `'a'`, `a.b`, `true`, `null`, `length`,
+	"\ufffd", "\ufffdA", "\ufffd\ufffd", "\ufffd\U0001F600", "a\ufffd"}
 
 // Key draws a key of 0..12 characters from all Unicode planes, ASCII symbols,
 // controls and escape-looking sequences.
@@ -52,6 +53,12 @@ func NearMisses(k string) []string {
 	out := []string{k + "x", `\` + k, k + `\`, "'" + k + "'", `"` + k + `"`, k + " ", " " + k, strings.ReplaceAll(k, `\`, ``), strings.ReplaceAll(k, `\`, `\\`)}
 	if len(rs) > 0 {
 		out = append(out, string(rs[1:]), string(rs[:len(rs)-1]), strings.ToUpper(k), strings.ToLower(k))
+	}
+	// one character deleted / doubled inside the key (all positions of short keys, three positions of longer ones)
+	for i := 1; i+1 < len(rs); i++ {
+		if len(rs) <= 6 || i == 1 || i == len(rs)/2 || i == len(rs)-2 {
+			out = append(out, string(rs[:i])+string(rs[i+1:]), string(rs[:i+1])+string(rs[i:]))
+		}
 	}
 	var uniq []string
 	seen := map[string]bool{k: true}
